@@ -951,8 +951,15 @@ class AdbDevice(object):
 
             try:
                 self._pull(device_path, stream, progress_callback, adb_info, filesync_info)
-            finally:
-                self._clse(adb_info)
+            except BaseException:
+                # Still close the stream, but report the failure of the transfer itself, not one met while closing
+                try:
+                    self._clse(adb_info)
+                except Exception:  # pylint: disable=broad-except
+                    pass
+                raise
+
+            self._clse(adb_info)
 
     def _pull(self, device_path, stream, progress_callback, adb_info, filesync_info):
         """Pull a file from the device into the file-like ``local_path``.
